@@ -9,7 +9,10 @@ from props.common import chunks_for, reply_fmt, guarded, canon_cells, PALETTE
 
 PROP = "C14"
 MODULES = ["Curtsies.Properties.C14", "Curtsies.Properties.C14Sound"]
-RULE = ("exhaustive: every single attribute (8 fg, 8 bg, 6 styles True/False) in every spelling (positional lower/UPPER "
+RULE = ("spelling pools are DERIVED from the live tables (every name of FG_COLORS/BG_COLORS incl. aliases, every public "
+        "callable of fmtfuncs); the eight documented names keep their fixed codes, an alias means the colour the live table "
+        "gives and 'on_'+alias the background of the same colour. "
+        "exhaustive: every single attribute (8 fg, 8 bg, 6 styles True/False) in every spelling (positional lower/UPPER "
         "case, fg=/bg= name, fg=/bg= number, style=, keyword True/False, each of the fmtfuncs incl. on_dark and plain) and "
         "every pair of attributes of different kinds in every pair of spellings (3 colours per kind quick, 8 thorough) in "
         "one call, plus every ordered pair of single specs nested (second applied to the result of the first, same or "
@@ -97,28 +100,54 @@ def enc_kw(kw):
 
 # ---- spellings: (pos, kw, func, named) -- `named` is what the spelling SAYS, by construction -------------------
 
-def spellings_fg(i):
-    name, num = COLORS[i], 30 + i
+import curtsies.termformatconstants as _tc
+
+LIVE_FG, LIVE_BG, LIVE_STYLES = dict(_tc.FG_COLORS), dict(_tc.BG_COLORS), dict(_tc.STYLES)
+
+
+def colour_names():
+    """the eight names the documentation fixes (their codes are fixed HERE: 30+i / 40+i), then every further name
+    the live tables offer (aliases such as 'grey'): an alias means the colour whose code the live table gives, and
+    'on_'+name must be the background of that SAME colour"""
+    out = [(n, 30 + k) for k, n in enumerate(COLORS)]
+    for n in list(LIVE_FG) + list(LIVE_BG):
+        if n not in [x for x, _ in out]:
+            out.append((n, LIVE_FG[n] if n in LIVE_FG else LIVE_BG[n] - 10))
+    return out
+
+
+def accepted_name(x):
+    """would the live tables read the positional word x as a colour / on_colour / style?"""
+    if not isinstance(x, str):
+        return False
+    l = x.lower()
+    return l in LIVE_FG or (l.startswith("on_") and x[3:].lower() in LIVE_BG) or l in LIVE_STYLES
+
+
+def spellings_fg(name, num):
     n = {"fg": num}
-    return [dict(pos=[S(name)], kw=[], func=None, named=n, sp="pos"),
-            dict(pos=[S(name.upper())], kw=[], func=None, named=n, sp="POS"),
-            dict(pos=[S(name.capitalize())], kw=[], func=None, named=n, sp="Pos"),
-            dict(pos=[], kw=[["fg", S(name)]], func=None, named=n, sp="kwname"),
-            dict(pos=[], kw=[["fg", V(num)]], func=None, named=n, sp="kwnum"),
-            dict(pos=[], kw=[["style", S(name)]], func=None, named=n, sp="style="),
-            dict(pos=[], kw=[], func=name, named=n, sp="func")]
+    out = [dict(pos=[S(name)], kw=[], func=None, named=n, sp="pos"),
+           dict(pos=[S(name.upper())], kw=[], func=None, named=n, sp="POS"),
+           dict(pos=[S(name.capitalize())], kw=[], func=None, named=n, sp="Pos"),
+           dict(pos=[], kw=[["fg", S(name)]], func=None, named=n, sp="kwname"),
+           dict(pos=[], kw=[["fg", V(num)]], func=None, named=n, sp="kwnum"),
+           dict(pos=[], kw=[["style", S(name)]], func=None, named=n, sp="style=")]
+    if name in FUNCS or name in COLORS:
+        out.append(dict(pos=[], kw=[], func=name, named=n, sp="func"))
+    return out
 
 
-def spellings_bg(i):
-    name, num = COLORS[i], 40 + i
+def spellings_bg(name, fgnum):
+    num = fgnum + 10
     n = {"bg": num}
     out = [dict(pos=[S("on_" + name)], kw=[], func=None, named=n, sp="pos"),
            dict(pos=[S("ON_" + name.upper())], kw=[], func=None, named=n, sp="POS"),
            dict(pos=[S("on_" + name.upper())], kw=[], func=None, named=n, sp="Pos"),
            dict(pos=[], kw=[["bg", S(name)]], func=None, named=n, sp="kwname"),
            dict(pos=[], kw=[["bg", V(num)]], func=None, named=n, sp="kwnum"),
-           dict(pos=[], kw=[["style", S("on_" + name)]], func=None, named=n, sp="style="),
-           dict(pos=[], kw=[], func="on_" + name, named=n, sp="func")]
+           dict(pos=[], kw=[["style", S("on_" + name)]], func=None, named=n, sp="style=")]
+    if "on_" + name in FUNCS or name in COLORS:
+        out.append(dict(pos=[], kw=[], func="on_" + name, named=n, sp="func"))
     if name == "black":
         out.append(dict(pos=[], kw=[], func="on_dark", named=n, sp="func-alias"))
     return out
@@ -160,9 +189,9 @@ LAYOUTS = [
 
 def singles():
     out = []
-    for i in range(8):
-        out += spellings_fg(i)
-        out += spellings_bg(i)
+    for name, num in colour_names():
+        out += spellings_fg(name, num)
+        out += spellings_bg(name, num)
     for s in STYLES:
         out += spellings_style(s, True) + spellings_style(s, False)
     out.append(dict(pos=[], kw=[], func="plain", named={}, sp="func"))
@@ -233,7 +262,7 @@ def mk_cases(ctx):
             cases.append(dict(op="apply", lay=ln, f=lay, spec=c, valid=True))
             nd += 1
     # triple: fg + bg + two styles in mixed spellings
-    for fgs, bgs in itertools.product(spellings_fg(1)[:5], spellings_bg(4)[:5]):
+    for fgs, bgs in itertools.product(spellings_fg("red", 31)[:5], spellings_bg("blue", 34)[:5]):
         c = combine(combine(fgs, bgs), dict(pos=[S("bold")], kw=[["underline", V(False)]], func=None,
                                             named={"bold": True, "underline": False}, sp="mix"))
         cases.append(dict(op="apply", lay="multi", f=LAYOUTS[0][1], spec=c, valid=True))
@@ -244,9 +273,24 @@ def mk_cases(ctx):
     for a, b in itertools.product(npool, npool):
         cases.append(dict(op="nest", lay="multi", f=LAYOUTS[0][1], specs=[a, b], valid=True))
         nn += 1
+    covered = {sp["func"] for sp in sing if sp["func"]}
+    for fn in FUNCS:
+        if fn not in covered:
+            ctx.note("fmtfuncs helper %r is not a colour / on_colour / style name: only compared with the model" % fn)
+            cases.append(dict(op="apply", lay="one", f=LAYOUTS[1][1], spec=dict(pos=[], kw=[], func=fn, named=None, sp="unknown-helper"), valid=None))
     ctx.exhaustive.append("single specs: %d x %d layouts; pairs in one call: %d; nested ordered pairs: %d" % (len(sing), len(LAYOUTS), nd, nn))
     # malformed catalogue
+    def still_malformed(pos, kw):
+        """a word the live tables accept today (a new alias) is no longer an unknown name"""
+        if len(pos) == 1 and not kw and pos[0][0] == "s" and accepted_name(pos[0][1]):
+            return False
+        if not pos and len(kw) == 1 and kw[0][1][0] == "s":
+            k, v = kw[0][0], kw[0][1][1]
+            if (k == "fg" and v in LIVE_FG) or (k == "bg" and v in LIVE_BG) or (k == "style" and accepted_name(v)):
+                return False
+        return True
     mal = [(p, []) for p in MALFORMED_POS] + [([], k) for k in MALFORMED_KW] + CONTRADICTIONS
+    mal = [m for m in mal if still_malformed(*m)]
     for (pos, kw), (ln, lay) in itertools.product(mal, LAYOUTS[:3]):
         cases.append(dict(op="apply", lay=ln, f=lay, spec=dict(pos=pos, kw=kw, func=None, named=None, sp="malformed"), valid=False))
     for pos, kw in mal:
@@ -439,8 +483,12 @@ LEVEL_NOTE = ("PROVED in Lean for all inputs of the model: parse_args returns ex
               "parse then override (C14_fmtstr_denote, C14_fmtfunc_general); override / remove touch exactly the named "
               "attributes on every character and nothing else (C14_apply, C14_override, C14_remove*), order independence for "
               "disjoint attributes; copy_with_new_str on uniformly formatted strings; shared_atts reports exactly the entries "
-              "common to all characters (C14_shared, C14_shared_complete); the spelling equivalences and the shape of the "
-              "live fmtfuncs module by kernel evaluation over tables regenerated every run. TIE-ONLY: that the model is what "
+              "common to all characters (C14_shared, C14_shared_complete); the spelling equivalences for EVERY name of "
+              "the live colour tables (aliases included) and the helpers of the live fmtfuncs module (each helper whose name is "
+              "an accepted spelling means that spelling; every colour and style has a helper; each is partial(fmtstr, style=..)) "
+              "by kernel evaluation over tables regenerated every run. The colour tables are not pinned to a fixed list: the "
+              "theorems need them WELL-FORMED only (C14_tables: values are the codes 30..37 / 40..47, each code has a name, "
+              "same names in both tables with bg = fg + 10; the six styles are fixed). TIE-ONLY: that the model is what "
               "the code does (per-run correspondence), Python's str.lower (a parameter in Lean; the harness ships the live "
               "values), from_str of a str argument (C05/C17). Trusted: Lean kernel + propext/Classical.choice/Quot.sound, the "
               "hand-written model and `denote`, extract.py, the wire codec; CPython is modelled not verified")
